@@ -7,6 +7,19 @@ TB = ("Trusted: Lean kernel; axioms propext/Classical.choice/Quot.sound only; to
       "Re.M as the meaning of CPython re on the emitted fragment (ASCII case folding), validated by stream K2; ")
 
 CHECKS = {
+    'C01': {
+        'text': "Theorem C01_partial (Lean): for EVERY pattern of the documented grammar (literals, ?, *, brackets with "
+                "negation/ranges/POSIX classes, nested extended groups, !(...) in the stated scope), EVERY non-empty name, "
+                "both case modes, DOTMATCH on/off: the regex the tidy compiler emits fully matches the name iff the name "
+                "is in the documented language — minus two recorded defects (D1 repeated group at the start, D3 `$` in the "
+                "look-ahead) whose witnesses are theorems too. POSIX tables of posix.py proved equal to the documented classes. "
+                "Tied to the code by regex-text equality (K1), AST equality faithful-port vs tidy compiler (K1'), "
+                "re.fullmatch vs model matcher (K2); the executable spec (proved = the declarative one) is run against "
+                "fnmatch/filter/compile().match.",
+        'note': TB + "the link WcParse text -> faithful port -> tidy compiler is checked on sampled patterns (exhaustive short "
+                "strings + grammar-generated), not proved; patterns outside the strict documented grammar are C10's business.",
+        'technique': 'Lean 4 compiler-correctness theorem (structural induction) + text/AST correspondence + spec-vs-API search',
+    },
     'C10': {
         'text': "Theorems over the faithful Lean port of WcParse: the pass is total for every string and every flag "
                 "record and can raise only the documented ValueError (and only under _NOABSOLUTE); the executable matcher "
@@ -20,5 +33,5 @@ CHECKS = {
 }
 
 NOT_APPLICABLE = {k: 'check not built yet in this session (model/proofs in progress); no claim is made' for k in
-                  ['C01', 'C02', 'C03', 'C04', 'C05', 'C06', 'C07', 'C08', 'C09', 'C11', 'C12', 'C13', 'C14', 'C15',
+                  ['C02', 'C03', 'C04', 'C05', 'C06', 'C07', 'C08', 'C09', 'C11', 'C12', 'C13', 'C14', 'C15',
                    'C16', 'C17', 'C18', 'C19', 'C20']}
